@@ -60,6 +60,13 @@ pub fn alphabet() -> Vec<P> {
             }
         }
     }
+    // totals that the quantity does not divide: the posting is valued at the total itself, never at (total / quantity) * quantity
+    for c in ["X", "Y", "Z"] {
+        let o = next_c(c);
+        v.push(P::amt("?", "3", same_c(c)).with_ann(Ann::Total("50", o)));
+        v.push(P::amt("?", "3", same_c(c)).with_ann(Ann::Total("7", o)));
+        v.push(P::amt("?", "-7", same_c(c)).with_ann(Ann::LotTotal("750", o)));
+    }
     // parenthesised spellings of 2 c
     for (c, sp1, sp2) in [("X", "(1 X + 1 X)", "(2 * 1 X)"), ("Y", "(1 Y + 1 Y)", "(2 * 1 Y)"), ("Z", "(1 Z + 1 Z)", "(2 * 1 Z)")] {
         let mut p = P::amt("?", "2", c);
